@@ -113,12 +113,11 @@ Theorem C04_skeleton_partial :
   /\ filter (fun s => negb (is_modelled s)) (map snd x_select_path) = unmodelled_calls
   (* with the per-clause item flags and separators of the code *)
   /\ model_item_flags = x_item_flags
-  /\ x_pagination = [("_limit is not None", "_limit_sql"); ("_offset", "_offset_sql")]
   /\ x_distinct = ("DISTINCT ", "").
 Proof.
   split; [intros; apply select_is_its_segments; assumption|].
   split; [exact clause_order_matches_code|]. split; [exact unmodelled_are_known|].
-  split; [exact item_flags_match_code|]. split; [exact pagination_matches_code | exact distinct_matches_code].
+  split; [exact item_flags_match_code | exact distinct_matches_code].
 Qed.
 Print Assumptions C04_skeleton_partial.
 
